@@ -82,7 +82,9 @@ def make(rng, cls):
     elif cls == "offset":
         X = 1e6 + rng.randn(n, d)
     else:  # empty-cluster-init
-        X = rng.randn(n, d)
+        # half of the tables do not surround the origin: a centre left at its zero initial value is then
+        # outside the range of the data instead of quietly capturing points
+        X = rng.randn(n, d) + (0.0 if rng.rand() < 0.5 else 20.0 * (1 + rng.randint(3)))
         far = X[:k].copy()
         far[k // 2:] += 1e3 * (1 + numpy.arange(k - k // 2))[:, None]
         init = far
